@@ -1,10 +1,179 @@
 (* C12: property theorems only; each closed by [exact] and followed by Print Assumptions. *)
 From Coq Require Import List NArith.
 From GoPdf.Base Require Import Bytes.
-From GoPdf.C12 Require Import Codec CodecProofs.
+From GoPdf.C12 Require Import Codec CodecProofs CodecSpecProofs CodecTreeProofs CodecAcceptProofs CodecLinProofs
+     CodecRTProofs CodecWalkProofs CodecTwfProofs CodecLinearizeProofs CodecLinTotalProofs CodecMergeProofs CodecFinalProofs CodecConstProofs.
 Import ListNotations.
+Open Scope N_scope.
 
+(* consumed: at least one byte, never more than available (any tree) *)
 Theorem tree_decode_consumes_within_input :
   forall cs s c, s <> [] -> (S c <= fst (tdecode cs s c) <= c + length s)%nat.
 Proof. exact tdecode_bounds. Qed.
 Print Assumptions tree_decode_consumes_within_input.
+
+(* NewCodec accepts exactly the valid range sets in which no code is a proper prefix of another *)
+Theorem accepts_prefix_free :
+  forall csr, forallb range_valid csr = true -> prefix_free csr -> exists t, new_codec_tree csr = Some t.
+Proof. exact accepts_prefix_free_lemma. Qed.
+Print Assumptions accepts_prefix_free.
+
+Theorem accepted_is_prefix_free :
+  forall csr t, new_codec_tree csr = Some t -> forallb range_valid csr = true /\ prefix_free csr.
+Proof. exact accepted_is_prefix_free_lemma. Qed.
+Print Assumptions accepted_is_prefix_free.
+
+(* for every accepted range set and every byte string the tree decodes as 9.7.6.2/9.7.6.3 say:
+   valid iff the first bytes lie in a range, consuming that range's length; otherwise the
+   shortest code length among the ranges sharing the longest prefix, cut to the input *)
+Theorem tdecode_spec :
+  forall csr t, new_codec_tree csr = Some t ->
+  forall s, wfbs s = true -> tdecode t s 0 = spec_decode csr s.
+Proof. exact tdecode_spec_lemma. Qed.
+Print Assumptions tdecode_spec.
+
+(* certified validator: a node array accepted by lin_ok decodes every string as the tree does,
+   the code being the little-endian value of the consumed bytes (at most four) *)
+Theorem lin_sound :
+  forall nodes t, lin_ok nodes t = true ->
+  forall s, wfbs s = true ->
+    decode nodes s = Some (le_code (firstn (fst (tdecode t s 0)) s), fst (tdecode t s 0), snd (tdecode t s 0))
+    /\ (fst (tdecode t s 0) <= 4)%nat.
+Proof. exact lin_sound_lemma. Qed.
+Print Assumptions lin_sound.
+
+(* the specification itself consumes at least one byte and never more than available *)
+Theorem spec_consumed_bounds :
+  forall csr t, new_codec_tree csr = Some t ->
+  forall s, wfbs s = true -> s <> [] -> (1 <= fst (spec_decode csr s) <= length s)%nat.
+Proof. exact spec_consumed_bounds_lemma. Qed.
+Print Assumptions spec_consumed_bounds.
+
+(* linearize_ok: whenever the lineariser succeeds, the node array it builds (reserved slots, the
+   `done` map that shares subtrees with equal descriptors - also across depths) passes the
+   validator, for every tree of new_codec_tree *)
+Theorem linearize_ok :
+  forall csr t nodes, new_codec_tree csr = Some t -> linearize t = LOk nodes -> lin_ok nodes t = true.
+Proof. exact linearize_ok_lemma. Qed.
+Print Assumptions linearize_ok.
+
+(* hence every codec the model of NewCodec returns is a validated array of its tree, and all
+   statements below that assume [new_codec_tree csr = Some t] and [lin_ok nodes t = true]
+   hold for it *)
+Theorem codec_validated :
+  forall csr nodes, codec csr = Some (Some nodes) ->
+  exists t, new_codec_tree csr = Some t /\ lin_ok nodes t = true.
+Proof. exact codec_validated_lemma. Qed.
+Print Assumptions codec_validated.
+
+(* codec_total: NewCodec never panics - for EVERY range set it either returns an error
+   (invalid set, a code that is a prefix of another, or more nodes than a uint16 child index
+   can address) or a validated codec *)
+Theorem codec_total :
+  forall csr, codec csr = None \/
+    exists nodes t, codec csr = Some (Some nodes) /\ new_codec_tree csr = Some t /\ lin_ok nodes t = true.
+Proof. exact codec_total_lemma. Qed.
+Print Assumptions codec_total.
+
+(* the size error is reserved for large trees: at most 65532 nodes counted without sharing
+   (tsize; the real array is never longer) are always accepted *)
+Theorem codec_accepts_small :
+  forall csr t, new_codec_tree csr = Some t -> N.of_nat (tsize (TSub t)) <= 65532 ->
+  exists nodes, codec csr = Some (Some nodes) /\ lin_ok nodes t = true.
+Proof. exact codec_accepts_small_lemma. Qed.
+Print Assumptions codec_accepts_small.
+
+(* decode_spec: for every range set NewCodec accepts, Decode on the codec follows
+   9.7.6.2/9.7.6.3 for every byte string, and the code is the little-endian value of the
+   consumed bytes *)
+Theorem decode_spec :
+  forall csr nodes, codec csr = Some (Some nodes) ->
+  forall s, wfbs s = true ->
+    decode nodes s = Some (le_code (firstn (fst (spec_decode csr s)) s),
+                           fst (spec_decode csr s), snd (spec_decode csr s)).
+Proof. exact decode_spec_lemma. Qed.
+Print Assumptions decode_spec.
+
+(* the same for any node array that passes the validator (this is what the check applies to
+   the implementation's real node arrays) *)
+Theorem decode_spec_validated :
+  forall csr t nodes, new_codec_tree csr = Some t -> lin_ok nodes t = true ->
+  forall s, wfbs s = true ->
+    decode nodes s = Some (le_code (firstn (fst (spec_decode csr s)) s),
+                           fst (spec_decode csr s), snd (spec_decode csr s)).
+Proof. exact decode_spec_validated_lemma. Qed.
+Print Assumptions decode_spec_validated.
+
+(* Decode and AppendCode never index outside the node array and never run out of fuel *)
+Theorem decode_no_panic :
+  forall nodes t, lin_ok nodes t = true -> forall s, wfbs s = true -> decode nodes s <> None.
+Proof. exact decode_no_panic_lemma. Qed.
+Print Assumptions decode_no_panic.
+
+Theorem append_no_panic :
+  forall nodes t, lin_ok nodes t = true -> forall code, append_code nodes code <> None.
+Proof. exact append_no_panic_lemma. Qed.
+Print Assumptions append_no_panic.
+
+(* codec_rt, first half: encoding then decoding reproduces the code (its low 8*len bits: the
+   bytes AppendCode wrote), consuming exactly the bytes written *)
+Theorem codec_rt_append_decode :
+  forall nodes t, lin_ok nodes t = true -> forall code,
+  exists bs v, append_code nodes code = Some bs /\ (1 <= length bs <= 4)%nat /\
+    decode nodes bs = Some (N.land code (N.ones (8 * N.of_nat (length bs))), length bs, v).
+Proof. exact rt_append_decode_lemma. Qed.
+Print Assumptions codec_rt_append_decode.
+
+(* codec_rt, second half: decoding then re-encoding reproduces the consumed bytes; if the
+   input ended inside a code (possible only for an invalid result on fewer than four bytes)
+   the re-encoding is the consumed bytes followed by zero padding *)
+Theorem codec_rt_decode_append :
+  forall nodes t, lin_ok nodes t = true ->
+  forall s, wfbs s = true ->
+  let k := fst (tdecode t s 0) in
+  let v := snd (tdecode t s 0) in
+  exists pad, append_code nodes (le_code (firstn k s)) = Some (firstn k s ++ repeat 0 pad) /\
+    (k + pad <= 4)%nat /\ (v = true -> pad = O) /\ (4 <= length s -> pad = O)%nat.
+Proof. exact rt_decode_append_lemma. Qed.
+Print Assumptions codec_rt_decode_append.
+
+(* csr_equiv: CodeSpaceRange() - the walk over the node array followed by the loop that merges
+   adjacent ranges - never panics, ends within its rounds, and reports ranges that match exactly
+   the same codes as the range set the codec was built from *)
+Theorem csr_equiv :
+  forall csr t nodes, new_codec_tree csr = Some t -> lin_ok nodes t = true ->
+  exists rep, code_space_range nodes = Some rep /\
+              forall s, wfbs s = true -> match_len rep s = match_len csr s.
+Proof. exact code_space_range_equiv_lemma. Qed.
+Print Assumptions csr_equiv.
+
+(* the same for the intermediate result of the walk *)
+Theorem csr_equiv_walk :
+  forall csr t nodes, new_codec_tree csr = Some t -> lin_ok nodes t = true ->
+  exists wr, walk_ranges nodes = Some wr /\
+             forall s, wfbs s = true -> match_len wr s = match_len csr s.
+Proof. exact csr_equiv_lemma. Qed.
+Print Assumptions csr_equiv_walk.
+
+(* the sentinel child values and descriptor tags of the model are the constants of the Go
+   source (coq/Gen/Gen_C12.v is regenerated from font/charcode/codec.go on every run) *)
+Theorem constants_match_source : model_constants = source_constants.
+Proof. exact constants_match_source_lemma. Qed.
+Print Assumptions constants_match_source.
+
+(* hypotheses are satisfiable: the UTF-8 code space *)
+Definition utf8 : list range :=
+  [([0],[127]); ([194;128],[223;191]); ([224;128;128],[239;191;191]); ([240;128;128;128],[244;191;191;191])].
+Example utf8_accepted_and_validated :
+  match new_codec_tree utf8 with
+  | Some t => match linearize t with LOk nodes => lin_ok nodes t = true /\ length nodes = 15%nat | _ => False end
+  | None => False
+  end.
+Proof. vm_compute. split; reflexivity. Qed.
+(* the witness of defect F4: with the invalid gaps in the descriptor, <0105> is invalid *)
+Example f4_witness :
+  match codec [([0;0],[0;127]); ([1;16],[1;127])] with
+  | Some (Some nodes) => decode nodes [1;5] = Some (1281, 2%nat, false)
+  | _ => False
+  end.
+Proof. vm_compute. reflexivity. Qed.
